@@ -16,6 +16,7 @@ HARNESSES = {
     'filter': dict(sources=['src/h_filter.cpp']),
     'config': dict(sources=['src/h_config.cpp']),
     'copy': dict(sources=['src/h_copy.cpp']),
+    'ts': dict(sources=['src/h_ts.cpp']),
     'anyid': dict(sources=['src/h_anyid.cpp']),
     'anydata': dict(sources=['src/h_anydata.cpp', 'src/h_anydata_m1.cpp', 'src/h_anydata_m24.cpp', 'src/h_anydata_m32.cpp', 'src/h_anydata_m64.cpp']),
 }
@@ -52,6 +53,14 @@ def multi_stages(parts, fuzz=None, enum=None):
     for h, runs in (fuzz or []):
         thorough.append(dict(engine='fuzz', harness=h, procs=8, runs=runs, timeout=3600))
     return dict(stages=quick), dict(stages=thorough)
+
+
+TSAN_ENV = {'TSAN_OPTIONS': 'suppressions=/verif/tools/tsan.supp halt_on_error=0 report_signal_unsafe=0 second_deadlock_stack=1'}
+
+
+def tsan_stage(cases):
+    """real threads + ThreadSanitizer (harness ts): sees a lock removed around a single container call, which is atomic under the controlled scheduler"""
+    return dict(engine='rc', harness='ts', variant='tsan', procs=8, cases=cases, timeout=(300 if cases <= 1000 else 3600), env=TSAN_ENV)
 
 
 PROPS = {}
@@ -153,16 +162,20 @@ SCHED_ASSUME = COMMON_ASSUME + [
     'schedules are sequentially consistent interleavings that switch only at Threading-policy operations (mutex, atomic, condition variable) and EVENTPP_VERIF_POINT hooks; weak-memory effects and torn reads are not explored',
     'the condition variable is the harness model of std::condition_variable (lost notifications when nobody waits, optional spurious wake-ups, timeouts fired by the scheduler)',
 ]
-q, t = std_stages('cq', 3000, 150000)
+q, t = std_stages('cq', 10000, 150000)
+q['stages'].append(tsan_stage(600))
+t['stages'].append(tsan_stage(20000))
 prop('C06', 'exploration',
      'generated thread programs (2-5 threads x <=5 calls: enqueue, DisableQueueNotify scopes, process, processOne, processIf, processUntil, takeEvent, peekEvent, clearEvents, emptyQueue) on EventQueue '
      '(scheduler mutex and the library SpinLock) and HeterEventQueue, executed under a harness-owned scheduler (random walk, PCT, sticky random; schedule bytes are part of the case); oracle = per-event '
-     'ledger (exactly one of dispatched-once / taken-once / destroyed-inside-clearEvents), payload intact, call results, per (producer, consumer) FIFO when no predicate declines, no deadlock; '
+     'ledger (exactly one of dispatched-once / taken-once / destroyed-inside-clearEvents), payload intact, call results, per (producer, consumer) FIFO when no predicate declines, no deadlock, '
+     'and mutual exclusion of the hook-declared critical sections (no thread arrives inside a section over queueList / freeList / the listener map while another thread is parked inside a section over the same container); '
+     'second stage = the same call vocabulary on real threads (std::mutex, OS schedule) under ThreadSanitizer with the documented unlocked reads suppressed, exactly-once delivery counters; '
      'non-trivial = a producer call overlapped a consumer call, two consumer calls overlapped, and a preemption happened inside a critical section or at an unlocked pre-check',
-     SCHED_ASSUME, q, t,
-     technique='property-based testing of generated thread programs x generated schedules under a controlled cooperative scheduler, per-event history oracle')
+     SCHED_ASSUME + ['the real-thread ThreadSanitizer stage is probabilistic (the OS owns the schedule); its reports are conclusive, its silence is not'], q, t,
+     technique='property-based testing of generated thread programs x generated schedules under a controlled cooperative scheduler, per-event history oracle; generated real-thread programs under ThreadSanitizer')
 
-q, t = std_stages('cq', 4000, 200000)
+q, t = std_stages('cq', 10000, 200000)
 prop('C07', 'exploration',
      'generated programs of waiter threads (wait / waitFor then drain), enqueuers (optionally inside nested DisableQueueNotify scopes) and processors under the harness-owned scheduler; '
      'oracle = at every quiescent state (no runnable thread) a parked waiter with pending events and no DisableQueueNotify alive is a lost wake-up; otherwise waiters are released by sentinel enqueues; '
@@ -172,7 +185,7 @@ prop('C07', 'exploration',
      q, t,
      technique='property-based testing of generated thread programs x generated schedules under a controlled cooperative scheduler, quiescent-state oracle for lost wake-ups')
 
-q, t = multi_stages([('queue', 1500, 60000), ('cq', 3000, 150000)])
+q, t = multi_stages([('queue', 1500, 60000), ('cq', 8000, 150000)])
 prop('C11', 'exploration',
      'single-threaded half: listeners and predicates of process/processOne/processIf/processUntil call emptyQueue()/waitFor(0) (queue harness); concurrent half: observer threads calling emptyQueue / waitFor while '
      'other threads enqueue, process, processOne, takeEvent, clearEvents under the harness-owned scheduler; oracle = an observation of "empty" over steps [t0,t1] requires every event whose enqueue returned before t0 '
@@ -241,16 +254,19 @@ prop('C12', 'exploration',
                       'HeterEventQueue with MixinHeterFilter does not compile for queued dispatch (stored arguments are const): heterogeneous filters are exercised on direct dispatch only'],
      q, t)
 
-q, t = std_stages('cl', 3000, 150000)
+q, t = std_stages('cl', 10000, 150000)
+q['stages'].append(tsan_stage(600))
+t['stages'].append(tsan_stage(20000))
 prop('C03', 'exploration',
      'generated thread programs (0-4 initial callbacks, 2-5 threads x <=4 calls: append, prepend, insert(before h), remove(h), ownsHandle(h), empty, forEach, invoke) on CallbackList (scheduler mutex and the library SpinLock) and on '
      'EventDispatcher keyed by a user type whose comparison/hash/copy are scheduling points (std::map and std::unordered_map), executed under the harness-owned scheduler (random walk, PCT, sticky; schedule bytes are part of the case); '
      'oracle = Wing-Gong linearizability search over the add/remove/query calls (program order + real-time order of non-overlapping calls, every return value, ending in the observed final order), traversal rules (no callback twice, '
-     'everything that stayed is visited, only callbacks that could be in the list, survivors in list order), deep probe after join (ownsHandle of every handle, remove survivors one by one re-enumerating), ledger; '
+     'everything that stayed is visited, only callbacks that could be in the list, survivors in list order), deep probe after join (ownsHandle of every handle, remove survivors one by one re-enumerating), ledger, mutual exclusion of the hook-declared critical sections over the one list / the one listener map; '
+     'second stage = append/remove/dispatch on real threads (std::mutex, OS schedule) under ThreadSanitizer with the documented unlocked reads suppressed; '
      'non-trivial = two threads issued overlapping calls on one list, one of them a structural change, with a preemption inside a critical section or at an unlocked access',
      SCHED_ASSUME + ['handles are shared through a harness table filled when an add returns; a handle of another event is never passed (documented UB)'],
      q, t,
-     technique='property-based testing of generated thread programs x generated schedules under a controlled cooperative scheduler, linearizability (Wing-Gong) oracle')
+     technique='property-based testing of generated thread programs x generated schedules under a controlled cooperative scheduler, linearizability (Wing-Gong) oracle; generated real-thread programs under ThreadSanitizer')
 
 q, t = multi_stages([('cbl_f', 200, 20000), ('queue_f', 200, 20000), ('remover_f', 200, 20000), ('heter_f', 200, 20000)])
 prop('C09', 'fault_enumeration',
